@@ -279,7 +279,7 @@ DAG_STRATA = [
     "const_nan_inf", "const_neg_zero_d", "const_1d_small", "const_large", "const_int8_double_bool", "const_string",
     "const_string_inf", "const_value_attrs", "names_dotted", "names_digit", "names_keyword", "names_collide", "names_shadow",
     "names_attr", "names_short", "names_dotted_io", "multi_output", "no_inputs", "operator_with_attr", "omitted_output_digit_names",
-    "attr_float_exact", "zero_dim_io",
+    "attr_float_exact", "zero_dim_io", "old_opset_attr_defaults",
 ]
 OUTSIDE_STRATA = ["out_sequence", "out_sequence_io", "out_scan", "out_sparse_init", "out_graph_attr"]
 
@@ -567,7 +567,8 @@ def dag_model(stratum, rnd, plain_names=False, plain_consts=False):
         gb.pool = []
         gb.const(np.array([1.0, -2.0, 0.5], dtype=np.float32))
         gb.const(np.array([0.25, 4.0, -1.0], dtype=np.float32), as_init=True)
-    gb.steps(rnd.randint(1, 3))
+    if stratum != "old_opset_attr_defaults":
+        gb.steps(rnd.randint(1, 3))
 
     def use_n():
         if n not in inputs:
@@ -703,6 +704,25 @@ def dag_model(stratum, rnd, plain_names=False, plain_consts=False):
         r = gb.add("Mul", [r, gb.add("Squeeze", [iv], [(F, S0)])[0]], [(F, V3)])[0]
         gb.add("Sub", [r, t2], [(F, V3)])
         meta["digit_names"] = {t1[0]: "1", t2[0]: "0", x2[0]: "2"}
+    elif s == "old_opset_attr_defaults":
+        # a model at an OLDER opset (11 / 12) in which attributes are explicitly set to the value that is the default of the
+        # operator's LATEST schema but not of the schema the model imports (Softmax family: axis=-1 vs axis=1 with flattening,
+        # visible from rank 3), next to attributes set to the old default and omitted ones
+        meta["opset"] = rnd.choice([11, 12])
+        a = gb.fvec()
+        t = gb.add("Unsqueeze", [a], [(F, (1, 3, 1))], axes=[0, 2])[0]
+        w = gb.const(np.arange(12, dtype=np.float32).reshape(2, 3, 2) * 0.25 - 1.0)
+        e = gb.add("Mul", [t, w], [(F, (2, 3, 2))])[0]
+        outs3 = []
+        for op_, ax in (("Softmax", -1), ("LogSoftmax", -1), ("Softmax", 1), ("Hardmax", -1), ("Softmax", None), ("LogSoftmax", 2)):
+            kw = {} if ax is None else {"axis": ax}
+            outs3.append(gb.add(op_, [e], [(F, (2, 3, 2))], **kw)[0])
+        acc = outs3[0]
+        for o in outs3[1:]:
+            acc = gb.add("Add", [acc, o], [(F, (2, 3, 2))])[0]
+        r = gb.add("ReduceSum", [acc], [(F, V3)], axes=[0, 2], keepdims=0)[0]
+        lk = gb.add("LeakyRelu", [r], [(F, V3)], alpha=0.01)[0]           # alpha equal to the (unchanged) default
+        gb.add("Add", [lk, gb.fvec()], [(F, V3)])
     elif s == "attr_float_exact":
         # literal FLOAT attributes whose float32 value has no short decimal spelling (tiny, huge, subnormal, 1/3-like): the text
         # must carry them exactly. Each is observed bit-exactly (Equal against the same value as a tensor) and amplified
@@ -760,7 +780,7 @@ def dag_model(stratum, rnd, plain_names=False, plain_consts=False):
         gb.nodes, "dag_" + stratum,
         [helper.make_tensor_value_info(v[0], v[1], list(v[2])) for v in inputs],
         [helper.make_tensor_value_info(v[0], v[1], list(v[2])) for v in outs], initializer=gb.inits)
-    model = helper.make_model(graph, opset_imports=[helper.make_opsetid("", OPSET)], ir_version=8)
+    model = helper.make_model(graph, opset_imports=[helper.make_opsetid("", meta.get("opset", OPSET))], ir_version=8 if "opset" not in meta else 7)
     if meta.get("digit_names") and not plain_names:
         _rename_graph(model.graph, meta["digit_names"])
     if s.startswith("names_") and not plain_names:
